@@ -1128,19 +1128,27 @@ std::vector<double> Eigenvalues(const Matrix& M)
 
 Vector Find_Eigenvector_Rayleigh(Matrix& M, double& eigenvalue)
 {
-	Vector b(M.Rows(), 1.0);
-	Matrix I	   = Identity_Matrix(M.Rows());
-	double epsilon = 1.0;
-	while(epsilon > 1.0e-10)
+	// Inverse iteration with a fixed shift placed slightly off the eigenvalue, such that (M - shift * I) is invertible and the iteration cannot wander to another eigenpair.
+	unsigned int N = M.Rows();
+	Matrix I	   = Identity_Matrix(N);
+	double scale   = M.Norm();
+	double shift   = eigenvalue + 1.0e-6 * ((scale > 0.0) ? scale : 1.0);
+	Matrix S	   = (M - (shift * I)).Inverse();
+	// Generic starting vector (not orthogonal to any eigenvector with rational components).
+	Vector b(N, 1.0);
+	for(unsigned int i = 0; i < N; i++)
+		b[i] = exp(-1.0 * i / 3.0);
+	for(int iteration = 0; iteration < 100; iteration++)
 	{
 		Vector b_before = b;
-		b				= (M - (eigenvalue * I)).Inverse() * b;
+		b				= S * b;
 		b.Normalize();
-		eigenvalue = b * (M * b);
-		epsilon	   = 0.0;
-		for(unsigned int i = 0; i < b.Size(); i++)
-			epsilon += Relative_Difference(fabs(b[i]), fabs(b_before[i]));
+		// The direction is converged if it no longer changes (up to its sign).
+		double epsilon = std::min((b - b_before).Norm(), (b + b_before).Norm());
+		if(epsilon < 1.0e-15)
+			break;
 	}
+	eigenvalue = b * (M * b);
 	return b;
 }
 
